@@ -1,6 +1,7 @@
 package main
 
 import (
+	"go/constant"
 	"go/ast"
 	"go/token"
 	"go/types"
@@ -18,6 +19,7 @@ type Facts struct {
 	m    map[string]bool    // atom -> truth
 	rel  map[string]relAtom // relational atoms ("a < b", "a == b") with their operand syntax
 	info *types.Info
+	dead bool // the program point is unreachable (a constant branch condition contradicts the edge)
 }
 
 // relAtom keeps the operands of a canonical relational atom.
@@ -27,7 +29,7 @@ type relAtom struct {
 }
 
 func (f Facts) clone() Facts {
-	n := Facts{m: make(map[string]bool, len(f.m)+2), rel: make(map[string]relAtom, len(f.rel)+2), info: f.info}
+	n := Facts{m: make(map[string]bool, len(f.m)+2), rel: make(map[string]relAtom, len(f.rel)+2), info: f.info, dead: f.dead}
 	for k, v := range f.m {
 		n.m[k] = v
 	}
@@ -155,15 +157,29 @@ func (f *Facts) assume(e ast.Expr, val bool) {
 			if val {
 				f.assume(x.X, true)
 				f.assume(x.Y, true)
+			} else if k, ok := f.Known(x.X); ok && k {
+				f.assume(x.Y, false)
+			} else if k, ok := f.Known(x.Y); ok && k {
+				f.assume(x.X, false)
 			}
 			return
 		case token.LOR:
 			if !val {
 				f.assume(x.X, false)
 				f.assume(x.Y, false)
+			} else if k, ok := f.Known(x.X); ok && !k {
+				f.assume(x.Y, true)
+			} else if k, ok := f.Known(x.Y); ok && !k {
+				f.assume(x.X, true)
 			}
 			return
 		}
+	}
+	if tv, ok := f.info.Types[e]; ok && tv.Value != nil && tv.Value.Kind() == constant.Bool {
+		if constant.BoolVal(tv.Value) != val {
+			f.dead = true
+		}
+		return
 	}
 	atom, flip := canonAtom(f.info, e)
 	f.m[atom] = val != flip
@@ -229,6 +245,11 @@ func (f Facts) Known(e ast.Expr) (bool, bool) {
 				return true, true
 			}
 			return false, false
+		}
+	}
+	if f.info != nil {
+		if tv, ok := f.info.Types[e]; ok && tv.Value != nil && tv.Value.Kind() == constant.Bool {
+			return constant.BoolVal(tv.Value), true
 		}
 	}
 	atom, flip := canonAtom(f.info, e)
@@ -315,6 +336,9 @@ func (g *Graph) guardFacts() *Solution[Facts] {
 		Join:  func(a, b Facts) Facts { return joinFacts(g, a, b, false) },
 		Widen: func(a, b Facts) Facts { return joinFacts(g, a, b, true) },
 		Eq: func(a, b Facts) bool {
+			if a.dead != b.dead {
+				return false
+			}
 			if len(a.m) != len(b.m) {
 				return false
 			}
@@ -326,8 +350,19 @@ func (g *Graph) guardFacts() *Solution[Facts] {
 			return true
 		},
 		Step: func(s Facts, st Step) Facts {
+			if s.dead {
+				return s
+			}
 			switch st.Kind {
 			case StCond:
+				if tv, ok := info.Types[st.Node.(ast.Expr)]; ok && tv.Value != nil && tv.Value.Kind() == constant.Bool {
+					if constant.BoolVal(tv.Value) != st.Val {
+						n := s.clone()
+						n.dead = true
+						return n
+					}
+					return s
+				}
 				n := s.clone()
 				n.assume(st.Node.(ast.Expr), st.Val)
 				// `_, ok := m[k]` ... `if ok` / `if !ok`: also record the membership atom "m[k]"
@@ -601,6 +636,12 @@ func heldAny(s strset, mu string) bool { return s[mu] || s["R:"+mu] }
 // both sides (with possibly different w) survives with the weaker w. With widen=true only bounds that are
 // equal on both sides survive, which guarantees termination on loops.
 func joinFacts(g *Graph, a, b Facts, widen bool) Facts {
+	if a.dead {
+		return b
+	}
+	if b.dead {
+		return a
+	}
 	n := Facts{m: map[string]bool{}, rel: map[string]relAtom{}, info: a.info}
 	same := len(a.m) == len(b.m)
 	for k, v := range a.m {
